@@ -670,3 +670,215 @@ twin('c08-twin-hit-path-shape', ['C08', 'C11', 'C18'], FND,
      "            for j in cached.extra:\n"
      "                extra_types[_path_type(j)](j, dist=dist)\n"
      "            return results")
+
+# -------------------------------------------------------------------- C12
+BPF = 'bfg9000/platforms/basepath.py'
+mutant('c12-escape-check-after-assign', ['C12'], BPF,
+       "        if ( normpath == posixpath.pardir or\n"
+       "             normpath.startswith(posixpath.pardir + posixpath.sep) ):\n"
+       "            raise ValueError(\"too many '..': path cannot escape root\")\n\n"
+       "        self.suffix = drive + normpath\n",
+       "        self.suffix = drive + normpath\n"
+       "        if destdir and ( normpath == posixpath.pardir or\n"
+       "             normpath.startswith(posixpath.pardir + posixpath.sep) ):\n"
+       "            raise ValueError(\"too many '..': path cannot escape root\")\n\n",
+       'PATH-CTOR')
+mutant('c12-escape-check-weakened', ['C12'], BPF,
+       "        if ( normpath == posixpath.pardir or\n"
+       "             normpath.startswith(posixpath.pardir + posixpath.sep) ):",
+       "        if normpath == posixpath.pardir:", 'PATH-CTOR')
+mutant('c12-no-backslash-normalise', ['C12'], BPF,
+       "        path = path.replace('\\\\', '/')\n        isdir = posixpath.basename",
+       "        isdir = posixpath.basename", 'PATH-CTOR')
+mutant('c12-addext-bypasses-ctor', ['C12'], BPF,
+       "        return type(self)(self.suffix + ext, self.root, self.destdir,\n"
+       "                          self.directory)",
+       "        import copy\n        result = copy.copy(self)\n"
+       "        result.suffix = self.suffix + ext\n        return result",
+       'PATH-CTOR')
+mutant('c12-parent-drops-destdir', ['C12'], BPF,
+       "        return type(self)(posixpath.dirname(self.suffix), self.root,\n"
+       "                          self.destdir, directory=True)",
+       "        return type(self)(posixpath.dirname(self.suffix), self.root,\n"
+       "                          directory=True)", 'PATH-CTOR')
+mutant('c12-hash-includes-directory', ['C12'], BPF,
+       "        return hash(self.suffix)", "        return hash((self.suffix, self.directory))",
+       'HASH-EQ')
+mutant('c12-eq-ignores-root', ['C12'], BPF,
+       "        return (self.root == rhs.root and self.suffix == rhs.suffix and\n"
+       "                self.destdir == rhs.destdir)",
+       "        return (self.suffix == rhs.suffix and\n"
+       "                self.destdir == rhs.destdir)", 'HASH-EQ')
+mutant('c12-json-order', ['C12', 'C09'], BPF,
+       "        return cls(data[0], base, data[2])",
+       "        return cls(data[0], base)", 'from_json')
+mutant('c12-filefilter-hash-extra', ['C12'], 'bfg9000/builtins/find.py',
+       "        return (self.include == rhs.include and self.extra == rhs.extra and\n"
+       "                self.exclude == rhs.exclude and\n"
+       "                self.filter_fn == rhs.filter_fn)",
+       "        return (self.include == rhs.include and\n"
+       "                self.exclude == rhs.exclude and\n"
+       "                self.filter_fn == rhs.filter_fn)", 'HASH-EQ')
+twin('c12-twin-eq-order', ['C12'], BPF,
+     "        return (self.root == rhs.root and self.suffix == rhs.suffix and\n"
+     "                self.destdir == rhs.destdir)",
+     "        return (self.suffix == rhs.suffix and self.root == rhs.root and\n"
+     "                self.destdir == rhs.destdir)")
+
+# ----------------------------------------------------- C07 C14 C15 C19 C20
+mutant('c07-no-depfixer', ['C07'], CP,
+       "            recipe_extra = [make.Silent(depfixer(deps))]\n", "",
+       'DEPFILE-WIRING')
+mutant('c07-include-not-optional', ['C07'], CP,
+       "        buildfile.include(depfile, optional=True)",
+       "        buildfile.include(depfile)", 'DEPFILE-WIRING')
+mutant('c07-depfile-not-target', ['C07'], CP,
+       "        build_inputs.add_target(File(depfile))\n", "",
+       'DEPFILE-WIRING')
+mutant('c07-suffix-mismatch', ['C07'], CP,
+       "        depfile = rule.output[0].path.addext('.d')\n"
+       "        build_inputs.add_target",
+       "        depfile = rule.output[0].path.addext('.dep')\n"
+       "        build_inputs.add_target", 'suffix')
+mutant('c07-ninja-no-deps-gcc', ['C07'], CP,
+       "            deps = 'gcc'\n            cmd_kwargs['deps'] = depfile = ninja.var('out') + '.d'",
+       "            cmd_kwargs['deps'] = depfile = ninja.var('out') + '.d'",
+       'DEPFILE-WIRING')
+mutant('c07-no-mmd', ['C07'], 'bfg9000/tools/cc/compiler.py',
+       "            result.extend(['-MMD', '-MF', deps])",
+       "            result.extend(['-MF', deps])", 'DEPFILE-WIRING')
+mutant('c07-depfixer-last-dep-unterminated', ['C07'], 'bfg9000/depfixer.py',
+       "            elif tok == Token.newline:\n"
+       "                outstream.write(':\\n')\n"
+       "                state = State.target",
+       "            elif tok == Token.newline:\n"
+       "                state = State.target", 'DEPFIX-TABLE')
+mutant('c07-depfixer-echoes-target', ['C07'], 'bfg9000/depfixer.py',
+       "            if tok == Token.space:\n                state = State.between_targets\n",
+       "            if tok == Token.char:\n                outstream.write(value)\n"
+       "            elif tok == Token.space:\n                state = State.between_targets\n",
+       'DEPFIX-TABLE')
+mutant('c07-clean-skips-extra', ['C07'], 'bfg9000/build_inputs.py',
+       "        return chain(\n            chain.from_iterable(i.output for i in self._edges),\n"
+       "            self._extra_targets\n        )",
+       "        return chain.from_iterable(i.output for i in self._edges)",
+       'DEPFILE-WIRING')
+twin('c07-twin-depfixer-branch-order', ['C07'], 'bfg9000/depfixer.py',
+     "            if tok == Token.char:\n                outstream.write(value)\n"
+     "            elif tok == Token.space:\n                outstream.write(':\\n')\n"
+     "                state = State.between_deps\n",
+     "            if tok == Token.space:\n                outstream.write(':\\n')\n"
+     "                state = State.between_deps\n"
+     "            elif tok == Token.char:\n                outstream.write(value)\n")
+
+mutant('c14-libs-order-reversed', ['C14'], LK,
+       "        self.libs = self.user_libs + forward_opts.libs",
+       "        self.libs = forward_opts.libs + self.user_libs", 'FORWARD-FIELDS')
+mutant('c14-no-recursion', ['C14'], 'bfg9000/options.py',
+       "                    result.update(forward_opts)\n"
+       "                    do_recurse(result, forward_opts.libs)",
+       "                    result.update(forward_opts)", 'FORWARD-FIELDS')
+mutant('c14-packages-not-forwarded', ['C14'], LK,
+       "            link_options=self.user_options,\n            libs=self.user_libs,\n"
+       "            packages=self.user_packages,",
+       "            link_options=self.user_options,\n            libs=self.user_libs,",
+       'FORWARD-FIELDS')
+mutant('c14-absolute-rpath', ['C14'], 'bfg9000/tools/patchelf.py',
+       "            rpath = rpath.relpath(output.path.parent(), prefix='$ORIGIN')",
+       "            rpath = rpath", 'RPATH-ORIGIN')
+mutant('c14-no-soname', ['C14'], 'bfg9000/tools/cc/linker.py',
+       "        if output:\n            flags.extend(self._soname(first(output)))\n",
+       "", 'RPATH-ORIGIN')
+mutant('c14-forwarded-link-options-dropped', ['C14'], LK,
+       "        self._internal_options.collect(extra_options,\n"
+       "                                       forward_opts.link_options)",
+       "        self._internal_options.collect(extra_options)", 'FORWARD-FIELDS')
+
+INS = 'bfg9000/builtins/install.py'
+mutant('c15-uninstall-explicit-only', ['C15'], INS,
+       "            uninstall_line(*i) for i in install_outputs.host.items()\n        ))]",
+       "            uninstall_line(i, install_outputs.host[i])\n"
+       "            for i in install_outputs.explicit\n        ))]", 'INSTALL-SYMMETRY')
+mutant('c15-no-destdir', ['C15'], INS,
+       "        return cls(f.install_suffix, install_root, destdir=not cross)",
+       "        return cls(f.install_suffix, install_root)", 'INSTALL-SYMMETRY')
+mutant('c15-deps-not-installed', ['C15'], INS,
+       "            for dep in src.install_deps:\n"
+       "                self._add_implicit(dep, directory)\n", "", 'INSTALL-SYMMETRY')
+mutant('c15-header-dir-flattened', ['C15'], INS,
+       "                src_paths = [i.path.relpath(src.path) for i in src.files]",
+       "                src_paths = [i.path.basename() for i in src.files]",
+       'INSTALL-SYMMETRY')
+mutant('c15-manpage-root', ['C15'], 'bfg9000/file_types.py',
+       "class ManPage(File):\n    install_root = _path.InstallRoot.mandir",
+       "class ManPage(File):\n    install_root = _path.InstallRoot.datadir",
+       'install_root')
+mutant('c15-ninja-install-no-mopack', ['C15'], INS,
+       "    install_commands = install_files + _install_mopack(env)\n\n"
+       "    if install_commands:\n        ninja.command_build(",
+       "    install_commands = install_files\n\n"
+       "    if install_commands:\n        ninja.command_build(", 'sibling')
+
+mutant('c19-shared-globals', ['C19'], 'bfg9000/build.py',
+       "            exec(code, {\n                '__file__': os.path.relpath(filename),\n"
+       "                '__builtins__': context.builtins,\n            })",
+       "            context._globals = getattr(context, '_globals', {})\n"
+       "            context._globals.update({\n"
+       "                '__file__': os.path.relpath(filename),\n"
+       "                '__builtins__': context.builtins,\n            })\n"
+       "            exec(code, context._globals)", 'EXEC-SCOPE')
+mutant('c19-no-pop-on-error', ['C19'], 'bfg9000/builtins/builtin.py',
+       "        try:\n            yield self.path_stack[-1]\n        finally:\n"
+       "            self.path_stack.pop()",
+       "        yield self.path_stack[-1]\n        self.path_stack.pop()",
+       'PUSH-PATH')
+mutant('c19-relpath-root', ['C19'], 'bfg9000/builtins/path.py',
+       "    return _path.Path.ensure(path, context.path.parent(), strict=strict)",
+       "    return _path.Path.ensure(path, _path.Root.srcdir, strict=strict)",
+       'REL-RESOLVE')
+mutant('c19-buildpath-no-reroot', ['C19'], 'bfg9000/builtins/path.py',
+       "    base = context.path.parent().reroot()", "    base = context.path.parent()",
+       'REL-RESOLVE')
+mutant('c19-x-alias-first-only', ['C19'], 'bfg9000/arguments/parser.py',
+       "        names += tuple('--x-' + i[2:] for i in names)",
+       "        names += ('--x-' + names[0][2:],)", 'X-ALIAS')
+mutant('c19-toggle-loses-x', ['C19'], 'bfg9000/arguments/parser.py',
+       "        return _re.sub('(^--(x-)?)', r'\\1' + prefix, s)",
+       "        return _re.sub('(^--)', r'\\1' + prefix, s)", 'X-ALIAS')
+mutant('c19-export-to-root', ['C19'], 'bfg9000/builtins/builtin.py',
+       "        return self.path_stack[-1].exports",
+       "        return self.path_stack[0].exports", 'PUSH-PATH')
+mutant('c19-extra-exec', ['C19'], 'bfg9000/builtins/core.py',
+       "@builtin.function(context=('build', 'options'))\ndef export(context, **kwargs):",
+       "@builtin.function(context=('build', 'options'))\ndef evaluate(context, text):\n"
+       "    return eval(text)\n\n\n"
+       "@builtin.function(context=('build', 'options'))\ndef export(context, **kwargs):",
+       'EXEC-SCOPE')
+
+SLN = 'bfg9000/backends/msbuild/solution.py'
+mutant('c20-always-new-guid', ['C20'], SLN,
+       "        if key in self._map:\n            return self._map[key]\n        else:\n"
+       "            u = uuid.uuid4()\n            self._map[key] = u\n            return u",
+       "        u = uuid.uuid4()\n        self._map[key] = u\n        return u",
+       'UUID-PERSIST')
+mutant('c20-new-guid-not-stored', ['C20'], SLN,
+       "            u = uuid.uuid4()\n            self._map[key] = u\n            return u",
+       "            u = uuid.uuid4()\n            return u", 'UUID-PERSIST')
+mutant('c20-save-skipped', ['C20'], 'bfg9000/backends/msbuild/writer.py',
+       "            p.write(out)\n    uuids.save()", "            p.write(out)",
+       'UUID-PERSIST')
+mutant('c20-seen-not-marked', ['C20'], SLN,
+       "        self._seen.add(key)\n        if key in self._map:",
+       "        if key in self._map:", 'UUID-PERSIST')
+mutant('c20-unknown-dep-skipped', ['C20'], SLN,
+       "            if dep_output not in self:\n"
+       "                raise RuntimeError('unknown dependency for {!r}'.format(dep))\n"
+       "            dependencies.append(self[dep_output])",
+       "            if dep_output not in self:\n                continue\n"
+       "            dependencies.append(self[dep_output])", 'SLN-DEPS')
+mutant('c20-tab-not-bad', ['C20'], 'bfg9000/shell/windows.py',
+       "_bad_chars = re.compile(r'(\\s|[\"&<>|]|\\\\$)')",
+       "_bad_chars = re.compile(r'( |[\"&<>|]|\\\\$)')", 'WIN-QUOTE-TABLE')
+mutant('c20-no-backslash-doubling', ['C20'], 'bfg9000/shell/windows.py',
+       "            return m.group(1) * 2 + quote", "            return m.group(1) + quote",
+       'WIN-QUOTE-TABLE')
